@@ -6,6 +6,19 @@ TRUSTED_COMMON = [
     "Go harness (generators, canonicalisation, direct oracles, recover wrapper) and the go/ast fact extractor",
 ]
 
+from engproj import compare_lines
+
+def eng(keys):
+    return lambda case, impl, model: compare_lines(impl, model, keys)
+
+ENGINE_TRUSTED = [
+    "text/template is modelled for literal text and {{.name}} placeholders only (missingkey=error); generated inputs never contain '{' (an error prefix quoting such input would be parsed as a template action)",
+    "CBOR round trip of the exported State/Cache fields is modelled as snapshot/restore; every persisted-mode case goes through the real persister and memory store",
+    "resource lookups and external functions are parameters of the model (tables in the case); lang.LanguageFromCode is a parameter filled from the codes used",
+    "Vm.Run is structurally recursive on fuel (Cfg.fuel, 2000 in the driver; exhaustion is reported, never compared); theorems hold for every fuel",
+    "error texts that reach a page as prefix are reproduced byte for byte for the VM's own messages; others are marked and compared by presence only",
+]
+
 PROPS = {}
 
 PROPS['C14'] = dict(
@@ -40,4 +53,32 @@ PROPS['C09'] = dict(
     ],
     assumptions=["size(v) + capacity < 2^32 for every stored value (uint32 wrap needs 4 GiB of values; not replayable)",
                  "limits are uint16 (0..65535), as the API types them"],
+)
+
+PROPS['C01'] = dict(
+    prop_modules=['Vise.Props.C01'], lean_targets=['Vise.Props.C01'], suites=['render', 'engine'],
+    compare={'engine': eng(['x', 'c', 'f', 'o'])},
+    trusted=ENGINE_TRUSTED + ["pages of 4 GiB and more (uint32 wrap of len) are excluded by hypothesis r.length < 2^32"],
+    assumptions=["OutputSize > 0"],
+)
+
+PROPS['C04'] = dict(
+    prop_modules=['Vise.Props.C04'], lean_targets=['Vise.Props.C04'], suites=['engine'],
+    compare={'engine': eng(['x', 'p', 'i'])},
+    trusted=ENGINE_TRUSTED + ["the move table is transcribed by hand from doc/texinfo/navigation.texi into specMove"],
+    assumptions=["SizeIdx wrap at 65536 consecutive 'next' moves is modelled (mod 65536) but not replayed"],
+)
+
+PROPS['C06'] = dict(
+    prop_modules=['Vise.Props.C06'], lean_targets=['Vise.Props.C06'], suites=['engine'],
+    compare={'engine': eng(['x', 'c', 'fl', 'cl', 'p', 'i'])},
+    trusted=ENGINE_TRUSTED + ["flag threshold, comparison operator and flag numbers are regenerated from state/flag.go on every run"],
+    assumptions=[],
+)
+
+PROPS['C17'] = dict(
+    prop_modules=['Vise.Props.C17'], lean_targets=['Vise.Props.C17'], suites=['engine'],
+    compare={'engine': eng(['x', 'c', 'f', 'o', 'p', 'i', 'fl', 'cd', 'fr', 'cl'])},
+    trusted=ENGINE_TRUSTED + ["Go regexp for the default input pattern is modelled by a hand-written matcher (matchesInput), compared on every generated input; custom validators (AddValidInput) are not modelled"],
+    assumptions=["engines without custom input validators"],
 )
